@@ -50,6 +50,13 @@ def c08_jobs(tier):
         for (n, m) in aff:
             jobs.append(_al("VerifC08_Optimal", which, n, m))
         jobs.append(_al("VerifC08_Optimal", which, 2, 2, qual=1))
+    # fixed letters (split=2), symbolic scores: longer sequences, every table stride and border (NW 5x5: 7 s, NWAffine 5x4: 51 s,
+    # SWAffine 4x5: 1127 s, FittedAffine 5x4: > 1200 s - measured)
+    fixed = [(0, 5, 5, 2), (3, 5, 4, 2)] if tier == "quick" else [(0, 5, 5, 2), (3, 5, 4, 2), (0, 6, 5, 3), (1, 5, 4, 2), (2, 5, 4, 2), (3, 4, 5, 3), (4, 4, 5, 2)]
+    for (which, n, m, k) in fixed:
+        j = _al("VerifC08_Optimal", which, n, m, k=k, split=2)
+        j["timeout_s"] = 900 if tier == "quick" else 3000
+        jobs.append(j)
     if tier == "thorough":
         jobs.append(_al("VerifC08_Optimal", 0, 3, 3, k=3))
         jobs.append(_al("VerifC08_Optimal", 0, 4, 4, split=1))
@@ -400,15 +407,15 @@ CHECKS["C12"] = {
 
 def c03_jobs(tier):
     jobs = []
-    ns = [1, 2, 3] if tier == "quick" else [1, 2, 3, 4, 5]
+    ns = [1, 2, 3] if tier == "quick" else [1, 2, 3, 4, 5, 6, 7]
     for n in ns:
         jobs.append({"pkgdir": "io/seqio/fasta", "func": "VerifC03_Fasta", "params": {"n": n, "nonascii": 0}, "timeout_s": 600 if tier == "quick" else 3000})
         jobs.append({"pkgdir": "io/seqio/fastq", "func": "VerifC03_Fastq", "params": {"n": n, "nonascii": 0}, "timeout_s": 600 if tier == "quick" else 3000})
     for bt in (3, 4, 5, 6, 12):
-        for n in ((2, 3) if tier == "quick" else (1, 2, 3, 4, 5)):
+        for n in ((2, 3) if tier == "quick" else (1, 2, 3, 4, 5, 6)):
             jobs.append({"pkgdir": "io/featio/bed", "func": "VerifC03_Bed", "params": {"n": n, "bedtype": bt}, "timeout_s": 600 if tier == "quick" else 3000})
         jobs.append({"pkgdir": "io/featio/bed", "func": "VerifC03_BedStructured", "params": {"bedtype": bt}, "timeout_s": 900 if tier == "quick" else 3000})
-    for n in ((2, 3) if tier == "quick" else (1, 2, 3, 4, 5)):
+    for n in ((2, 3) if tier == "quick" else (1, 2, 3, 4, 5, 6)):
         jobs.append({"pkgdir": "io/featio/gff", "func": "VerifC03_Gff", "params": {"n": n}, "timeout_s": 600 if tier == "quick" else 3000})
     for meta in (0, 1, 2):
         jobs.append({"pkgdir": "io/featio/gff", "func": "VerifC03_GffStructured", "params": {"meta": meta}, "timeout_s": 900 if tier == "quick" else 3000})
@@ -426,7 +433,7 @@ CHECKS["C03"] = {
     "functions": ["fasta.(*Reader).Read/header", "fastq.(*Reader).Read/readHeader", "bed.(*Reader).Read, parseBed3..12, mustAto*", "gff.(*Reader).Read/commentMetaline/metaSeq, mustAto*, splitAnnot", "feat.OneToZero",
                   "bufio.(*Reader).ReadLine/ReadSlice/ReadBytes/fill, bytes.TrimSpace/HasPrefix/Fields/Join/Split/SplitN/IndexAny, strconv.ParseInt/ParseUint (executed); strconv.ParseFloat on concrete bytes; time.Parse stubbed"],
     "explanation": "(A) arbitrary buffer: every input byte symbolic, Read called until an error: no panic, record-or-error, error within lines+2 calls; (B) structured: a valid BED/GFF line with symbolic text holes and one symbolic mutation (delete/duplicate/empty a column, numeric boundary values, truncation at every offset, incomplete metadata lines): as A, plus structurally invalid lines must yield an error",
-    "outside": "arbitrary inputs longer than stated (FASTA/FASTQ <= 5, BED/GFF <= 5 bytes), more than one mutation per line, non-ASCII beyond one position",
+    "outside": "arbitrary inputs longer than stated (FASTA/FASTQ <= 7, BED/GFF <= 6 bytes in the thorough tier; 3 in the quick tier), more than one mutation per line, non-ASCII beyond one position",
 }
 
 
